@@ -690,6 +690,16 @@ func absorbRace(prefix, variantName string, res *shardResult) {
 			}
 			res.counts["race_reports"]++
 			sites := raceSites(block)
+			sdk := false
+			for _, st := range sites {
+				sdk = sdk || !strings.HasPrefix(st, "non-sdk:")
+			}
+			if !sdk {
+				// neither access has an SDK frame anywhere on its stack: a race inside the harness says
+				// nothing about the property
+				res.inconclusive = append(res.inconclusive, fmt.Sprintf("variant=%s: race report without any SDK frame (harness race): %s", variantName, strings.Join(sites, " vs ")))
+				continue
+			}
 			k := "race:" + strings.Join(sites, "|")
 			res.nviol[k]++
 			if res.nviol[k] == 1 {
